@@ -135,6 +135,14 @@ def worker(job):
                 if fault and fault['at'] == k:
                     raise RuntimeError('injected loop failure')
             opt.set_iteration_callback(cb)
+            iter_calls = {}
+            if hasattr(opt, 'current_iteration_num'):      # random search: which iteration made which history call
+                hist, orig_add = opt.history, opt.history.add_to_history
+
+                def add_spy(*a, **kw):
+                    iter_calls.setdefault(opt.current_iteration_num, len(hist.generations))
+                    return orig_add(*a, **kw)
+                hist.add_to_history = add_spy
             try:
                 result = opt.optimise(objective)
                 out['outcome'] = 'ok'
@@ -144,6 +152,7 @@ def worker(job):
                 out['result'] = []
             out['history'] = _export(opt.history)
             out['n_initial'] = len(opt.initial_graphs or [])
+            out['iter_calls'] = iter_calls
     else:   # the facade
         import networkx as nx
         from golem.api.main import GOLEM
@@ -177,8 +186,7 @@ def worker(job):
             try:
                 result = golem.optimise()
                 out['outcome'] = 'ok'
-                out['result'] = sorted(str(sorted(nx.get_node_attributes(g, 'name').values())) + str(g.number_of_edges())
-                                       for g in result)
+                out['result'] = [getattr(g, 'descriptive_id', None) or str(g) for g in result]
             except Exception as ex:  # noqa
                 import traceback
                 out['outcome'] = 'raise:' + type(ex).__name__
@@ -350,16 +358,21 @@ def replay_of(group, base_res, base_x):
     else:
         draws = [j_all] if j_all else []
     n_initial = base_res.get('n_initial', 0) if kind == 'Populational' else 1
+    # random search: iteration n runs with current_iteration_num = n+1 when it records (incremented before)
+    ic = {int(k_) - 1: v for k_, v in (base_res.get('iter_calls') or {}).items() if int(k_) >= 1 and v >= 1}
+    labels = [g['label'] for g in base_x['gens']]
+    iter_calls = [ic.get(n, 0) if (ic.get(n, 0) < len(labels) and labels[ic.get(n, 0)] == '') else 0
+                  for n in range((max(ic) + 1) if ic else 0)]
     return ('{| rp_kind := %s; rp_parallel := %s; rp_n_jobs := %s; rp_num_gen := %s; rp_pop_size := %s; '
             'rp_max_stagn := %s; rp_multi := %s; rp_nmetrics := %s; rp_n_initial := %s; rp_created := %s; '
-            'rp_new := %s; rp_parents := %s; rp_stagn := %s; rp_fault := %s; rp_joblib_draws := %s |}' % (
+            'rp_new := %s; rp_parents := %s; rp_stagn := %s; rp_fault := %s; rp_joblib_draws := %s; rp_iter_calls := %s |}' % (
                 kind, c_bool(par), c_nat(cfg.get('n_jobs', 1)), c_opt(ngen, c_nat, 'nat'),
                 c_nat(psp[0] if psp else cfg.get('pop_size', 5)), c_opt(es or ngen, c_nat, 'nat'),
                 c_bool(bool(cfg['objective'].get('multi'))), c_nat(nmetrics), c_nat(n_initial), nats(created),
                 c_list([nats(l) for l in new], 'list nat'),
                 c_list(parents, 'nat * (list nat * option H.opkind)'), nats(stagn),
                 'None' if not fault else '(Some (%s, %s))' % (c_nat(fault['at']), c_nat(base_x['outcome'])),
-                nats(draws)))
+                nats(draws), nats(iter_calls)))
 
 
 def case_to_coq(replay, base_x, others):
@@ -411,9 +424,11 @@ def make_config(rng, i, optimiser=None):
 
 def build_groups(ctx):
     rng = ctx.rng
-    n_single = ctx.budget(8, 60)
-    n_par = ctx.budget(2, 12)
+    n_single = ctx.budget(6, 60)
+    n_par = ctx.budget(1, 12)
     n_api = ctx.budget(1, 4)
+    if os.environ.get('C14_SIZES'):      # debugging aid: "single,parallel,facade"
+        n_single, n_par, n_api = [int(x) for x in os.environ['C14_SIZES'].split(',')]
     groups = []
     for i in range(n_single):
         cfg = make_config(rng, i)
@@ -442,7 +457,7 @@ def build_groups(ctx):
         g = {'name': 'f%d' % i, 'family': 'facade', 'cfg': cfg}
         g['runs'] = [('base', None, {}), ('repeat', 'CFacade', {}), ('hash', 'CHashSeed', {'hashseed': 3}),
                      ('progress', 'CFacade', {'show_progress': True}), ('logging', 'CFacade', {'log_level': 10}),
-                     ('njobs', 'CFacade', {'facade_n_jobs': 2})]
+                     ('njobs', 'CWorkers', {'facade_n_jobs': 2})]
         groups.append(g)
     return groups
 
@@ -556,13 +571,14 @@ def judge(ctx, group, results, tags, verdicts):
                 what += ' (crossover types %s iterate a set of nodes / node pairs: list(set(...)) then random.choice)' % sorted(known_ops) if known_ops else ''
             if cl == 'CWorkers':
                 ur1 = results[0].get('urandom', {})
-                ur2 = next((r.get('urandom', {}) for r in results if r['job']['run'] == 'j2'), {})
+                ur2 = next((r.get('urandom', {}) for r in results if r['job']['clause'] == 'CWorkers'), {})
                 j1 = sum(v for k, v in ur1.items() if k.startswith('joblib:'))
                 j2 = sum(v for k, v in ur2.items() if k.startswith('joblib:'))
                 iso_ok = all(vd2[1 + CLAUSES.index('CWorkersIsolated')] for (t2, _, _), vd2 in zip(tags, verdicts) if t2 == 'isolated')
                 from2_ok = all(vd2[1 + CLAUSES.index('CWorkersFrom2')] for (t2, _, _), vd2 in zip(tags, verdicts) if t2 == 'from2')
                 has_iso = any(t2 == 'isolated' for (t2, _, _) in tags)
-                if j1 != j2 and has_iso and iso_ok and from2_ok:
+                # the facade family has no isolated runs of its own: the parallel family examines the cause
+                if j1 != j2 and ((has_iso and iso_ok and from2_ok) or group['family'] == 'facade'):
                     key = 'C14.njobs-stream-shift'
                     what += ('; cause: joblib asks the patched os.urandom for %d identifiers with n_jobs=1 and %d with n_jobs=2 '
                              '(Parallel.__call__ / TemporaryResourcesManager draw uuid4 only when n_jobs != 1), which shifts the seeded '
